@@ -7,11 +7,18 @@ stdin : JSON list of cases, each a dict with 'kind':
   sweep  -- real popen_fork.Popen.poll on a fresh object for every wait status lo..lo+n-1,
             plus CPython's os.W* macros on the same statuses
   real   -- a real child (fork / spawn / forkserver) ending in the requested way
+  seq    -- a history over SEVERAL real children of one start method: start / join(t) /
+            is_alive / exitcode / active_children interleaved with "child i ends now",
+            "child i closes its end of the sentinel pipe and goes on running", "the joined
+            process object i is dropped and garbage collected", "an unrelated file is
+            opened" (descriptor numbers are reused across the children of one history)
   fs     -- real popen_forkserver.Popen.poll over scripted sentinel-wait / read_unsigned
   human  -- common.human_status
 stdout: last line = JSON list of observations (same order).
 """
 import errno
+import fcntl
+import gc
 import json
 import os
 import re
@@ -47,7 +54,12 @@ class ScenarioTimeout(Exception):
 STAGE = ['']
 
 
+HANG_MODE = [False]
+
+
 def _on_alarm(signum, frame):
+    if HANG_MODE[0]:
+        raise Hang()
     raise ScenarioTimeout('no progress for %ss during: %s' % (REAL_CASE_LIMIT, STAGE[0]))
 
 
@@ -294,6 +306,141 @@ def run_real(case, tmpdir, seq):
     return out
 
 
+
+# --------------------------------------------------------------------------- real histories
+SEQ_SLACK = 2.0          # a timed join that has not returned SEQ_SLACK s after its timeout "hangs"
+SEQ_LIFE = 4.0           # a child that closed its sentinel ends by itself after this long
+
+
+def run_seq(case, tmpdir, seq):
+    """several real children, one after the other and side by side; every parent-side call
+    runs under an interval timer: a call that does not come back is interrupted (the
+    exception leaves os.waitpid / poll without reaping anything) and recorded as 'hang'."""
+    method = case['method']
+    ctx = billiard.get_context(method)
+    d = os.path.join(tmpdir, 'seq%d' % seq)
+    os.mkdir(d)
+    n = len(case['paths'])
+    procs, pids, watch, last_rc, files = [], [None] * n, [None] * n, [None] * n, []
+    for i, path in enumerate(case['paths']):
+        p = ctx.Process(target=proc_targets.seq_child, args=(d, i, list(path), SEQ_LIFE))
+        p.daemon = True
+        p._vidx = i
+        procs.append(p)
+    p = None
+    obs, timing = [], []
+
+    def rcs():
+        live = {q._vidx: q for q in bprocess._children}
+        for i in range(n):
+            q = procs[i] if procs[i] is not None else live.get(i)
+            if q is not None and q._popen is not None:
+                last_rc[i] = q._popen.returncode
+        q = None
+        return list(last_rc)
+
+    def guarded(limit, fn):
+        HANG_MODE[0] = True
+        signal.setitimer(signal.ITIMER_REAL, limit)
+        try:
+            return res_json(fn())
+        except AssertionError:
+            return ['assert']
+        except Hang:
+            return ['hang']
+        except Exception as exc:       # noqa -- reported: the model has no counterpart
+            return ['exc', '%s: %s' % (type(exc).__name__, exc)]
+        finally:
+            HANG_MODE[0] = False
+            signal.setitimer(signal.ITIMER_REAL, REAL_CASE_LIMIT)    # back to the scenario watchdog
+
+    try:
+        for o in case['ops']:
+            k = o[0]
+            STAGE[0] = 'history op %s' % (o,)
+            t0 = time.monotonic()
+            if k == 'end':
+                i = o[1]
+                open(os.path.join(d, 'gate%d' % i), 'w').close()
+                if pids[i] is not None:
+                    if method != 'forkserver':
+                        # wait for the end without reaping: the status stays for the code under test
+                        os.waitid(os.P_PID, pids[i], os.WEXITED | os.WNOWAIT)
+                    elif watch[i] is not None:
+                        import select
+                        select.select([watch[i]], [], [], 20)
+                    else:
+                        time.sleep(0.5)
+                r = ['none']
+            elif k == 'closefds':
+                i = o[1]
+                open(os.path.join(d, 'close%d' % i), 'w').close()
+                t1 = time.monotonic()
+                while not os.path.exists(os.path.join(d, 'closed%d' % i)) and time.monotonic() - t1 < 20:
+                    time.sleep(0.002)
+                r = ['none']
+            elif k == 'drop':
+                procs[o[1]] = None
+                gc.collect()
+                r = ['none']
+            elif k == 'openfile':
+                files.append(os.open(os.devnull, os.O_RDONLY))
+                r = ['none']
+            elif k == 'active':
+                r = guarded(5, lambda: sorted(q._vidx for q in bprocess.active_children()))
+            else:
+                p = procs[o[1]]
+                if k == 'start':
+                    r = guarded(30, p.start)
+                    if p._popen is not None and pids[o[1]] is None:
+                        pids[o[1]] = p.pid
+                        if p.sentinel is not None:
+                            try:
+                                watch[o[1]] = fcntl.fcntl(p.sentinel, fcntl.F_DUPFD, 200)
+                            except OSError:
+                                pass
+                elif k == 'join':
+                    t = o[2]
+                    r = guarded((t or 0) + SEQ_SLACK, lambda: p.join(t))
+                elif k == 'alive':
+                    r = guarded(5, p.is_alive)
+                elif k == 'code':
+                    r = guarded(5, lambda: p.exitcode)
+                else:
+                    raise ValueError(o)
+                p = None
+            timing.append(round(time.monotonic() - t0, 3))
+            obs.append(dict(res=r, children=sorted(q._vidx for q in bprocess._children), rcs=rcs()))
+    finally:
+        p = None
+        for pid in pids:
+            if pid is not None:
+                try:
+                    os.kill(pid, signal.SIGKILL)
+                except OSError:
+                    pass
+                if method != 'forkserver':
+                    try:
+                        REAL_WAITPID(pid, 0)
+                    except OSError:
+                        pass
+        for fd in files + [w for w in watch if w is not None]:
+            try:
+                os.close(fd)
+            except OSError:
+                pass
+        for q in procs:
+            if q is not None and q._popen is not None:
+                try:
+                    q.close()
+                except OSError:
+                    pass
+        bprocess._children.clear()
+        del procs[:]
+        gc.collect()
+    return dict(obs=obs, timing=timing)
+
+
 # --------------------------------------------------------------------------- forkserver poll
 def run_fs(case):
     from billiard import popen_forkserver, forkserver
@@ -361,13 +508,13 @@ def main():
                 out.append(run_world(c))
             elif k == 'sweep':
                 out.append(run_sweep(c))
-            elif k == 'real' and TIMEOUTS[0] >= 2:
+            elif k in ('real', 'seq') and TIMEOUTS[0] >= 2:
                 out.append(dict(crash='skipped after repeated scenario timeouts', skipped=True))
-            elif k == 'real':
+            elif k in ('real', 'seq'):
                 signal.signal(signal.SIGALRM, _on_alarm)
                 signal.setitimer(signal.ITIMER_REAL, REAL_CASE_LIMIT)
                 try:
-                    out.append(run_real(c, tmpdir, seq))
+                    out.append(run_real(c, tmpdir, seq) if k == 'real' else run_seq(c, tmpdir, seq))
                 except Exception as exc:     # noqa -- the scenario itself failed: reported
                     import traceback
                     if isinstance(exc, ScenarioTimeout):
